@@ -217,13 +217,13 @@ def main(argv):
     cfgs.sort(key=lambda c: -c.get("cost", 1))
     # thorough tier: one overall wall budget (configurations still running then are reported truncated = inconclusive, never passed),
     # and big configurations are split over the cores by decision prefix
-    total_budget = float(os.environ.get("VERIF_TOTAL_BUDGET_S", meta.get("total_budget_s", {}).get(tier, 0 if tier == "quick" else 1500)))
+    total_budget = float(os.environ.get("VERIF_TOTAL_BUDGET_S", meta.get("total_budget_s", {}).get(tier, 0 if tier == "quick" else 900)))
     global_deadline = (t0 + total_budget) if total_budget else None
     if tier == "thorough":
         for c in cfgs:
             if c.get("cost", 0) >= 1000 and "split" not in c:
                 c["split"] = 32
-    budget = float(os.environ.get("VERIF_CFG_BUDGET_S", meta.get("cfg_budget_s", {}).get(tier, 240 if tier == "quick" else 1500)))
+    budget = float(os.environ.get("VERIF_CFG_BUDGET_S", meta.get("cfg_budget_s", {}).get(tier, 240 if tier == "quick" else 900)))
     # real build in the background: translator validation
     tv_cases = mod.tv_cases(tier) if hasattr(mod, "tv_cases") else None
     real_handle = _spawn_real(dict(pid=pid, cases=[], tv=tv_cases)) if tv_cases else None
